@@ -716,6 +716,11 @@ class Gen:
                 cond = L.fn("exists", self.nonterm(cond)) if cond["k"] != "term" else L.fn("yes")
             comps.insert(r.randint(0, len(comps)), L.err(self.href_any()))
             comps.insert(r.randint(1, len(comps)), r.choice([L.fn("skip", cond), L.when(cond, L.fn("skip")), L.fn("skip")]))
+        te = self.cols({"txtE"}, strict=True)
+        if "errors" in self.groups and te and r.random() < 0.25:
+            # a division by the length of a cell that is empty on some lines: the exception arises in a component that has just read
+            # an empty value
+            comps.insert(r.randint(0, len(comps)), L.eq(L.fn("mod", self.nonneg(), L.fn("length", self.href(r.choice(te)))), L.term(r.choice([0, 1, 2]))))
         if "errors" in self.groups and r.random() < 0.2:
             # an error raised by what last() triggers: on a file that ends in a blank record only the last() components run
             # (Matcher._do_lasts), and what they raise is handled under the policy like an error on any other line
